@@ -94,7 +94,9 @@ BatchStates(S, r, i, agedYet, added) ==     \* S: set of [st, cnt] after the fir
 DoBatch(r) ==
   LET S == BatchStates({[st |-> L, cnt |-> cnt]}, r, 1, FALSE, {})
       match == {x \in S : x.st.rows = r.rows /\ x.st.total = r.total}
-      verdicts == IF match = {} THEN <<SV("a batch of accesses was not applied as the sequence of its accesses (counters, window count or the ageing point differ)")>> ELSE <<>>
+      verdicts == IF match = {} THEN <<SV("a batch of accesses was not applied as the sequence of its accesses (counters, window count or the ageing point differ)"),
+                                         [prop |-> "C15", kind |-> "violation", finding |-> "", what |-> "access records handed to the sketch in one batch were not each delivered to it exactly once"]>>
+                  ELSE <<>>
       pick == IF match # {} THEN CHOOSE x \in match : TRUE ELSE [st |-> [L EXCEPT !.rows = r.rows, !.total = r.total, !.dk = {}], cnt |-> [k \in {} |-> 0]]
       estBad == match # {} /\ \E j \in DOMAIN r.ests : r.ests[j][2] < Cap(GetC(pick.cnt, r.ests[j][1]))
   IN /\ L' = pick.st
